@@ -65,6 +65,10 @@ CHECKS = {
                 technique="exhaustive enumeration of location strings x base-directory spellings x read entry points on a real sandbox tree against an independent realpath/lstat reference, opens observed via the audit hook; plus read-mutate-read histories on one tensor",
                 text="Every location string of up to 3 (thorough 4) components over 18 components (., .., files, sub-directory, symlinks to files/directories inside and outside, hard links inside/outside, a sibling directory sharing the base's name as prefix, empty and missing components) plus absolute and non-normalised forms, under 8 spellings of the base directory, through 8 read entry points (numpy, __array__, tobytes, tofile to BytesIO and to a file, convert_tensors_from_external, load_to_model, serialisation of numpy()). A read may return only if the reference allows it and then exactly that file's bytes; no file outside the resolved base may even be opened. ir.load under 9 spellings of the model path (bare name, ./name, pathlib, through symlinked directory and symlinked model file, ...) must give the model's directory as base and keep rejecting escaping locations. Histories read - change base_dir / swap file for an escaping symlink / add a hard link / swap a directory for a symlink - read again (with and without release()) on one tensor object must not return outside bytes.",
                 note="tmpfs sandbox; reference = realpath + stat; over-rejection is counted but not a violation; cached arrays of a legitimately read file may be returned again."),
+    "C07": dict(level="exploration", engine="E6-enum", design="4/C07",
+                technique="exhaustive configuration enumeration (model mixes x threshold x alignment x shard limit x workers x destination x path spelling x backend) with save + reload + layout audit per configuration",
+                text="Eight model mixes (in-memory, lazy, packed/unpacked 4-bit, 2-bit, proto-backed via raw and typed fields, already external from another file, re-save of a loaded model onto its own data file, zero-size, one tensor object under several names incl. across graphs, subgraph initializers, many small, every size class) are saved with every option tuple of the grid (thorough: full cross product of 4 thresholds x 7 alignment settings x 6 shard limits x 4 worker counts x 3 destinations x 3 path spellings; quick: reduced grid) through the raw backend and the safetensors backend, reloaded with ir.load and audited: name/dtype/shape/bytes of every initializer in every graph, external iff above the threshold, per data file ranges in declaration order (raw), disjoint, inside the file, aligned as requested, each tensor in one shard, over-limit shards hold one tensor, no trailing bytes, and the model passed to save holds the same tensor objects afterwards.",
+                note="Threshold ties follow the documented comparison; the order inside a safetensors file is chosen by the safetensors writer and not judged."),
 }
 
 NOT_YET = {}
@@ -106,7 +110,7 @@ def main():
              "kind_free_text": "explicit-state BFS over the real transition function; states are histories replayed on fresh real objects; dedup on canonical public snapshot"},
             {"name": "E1-seq", "path": "mc/props/c11.py", "serves_properties": ["C11"],
              "kind_free_text": "stateless enumeration of all event sequences up to a depth with trace monitors"},
-            {"name": "E6-enum", "path": "mc/props/", "serves_properties": ["C02", "C04", "C10", "C12", "C16", "C17"],
+            {"name": "E6-enum", "path": "mc/props/", "serves_properties": ["C02", "C04", "C07", "C10", "C12", "C16", "C17"],
              "kind_free_text": "small-scope exhaustive input/structure enumeration with independent reference oracles"},
             {"name": "E5-fsfault", "path": "mc/fsfault.py", "serves_properties": ["C08"],
              "kind_free_text": "file-system effect interception + exhaustive fault/crash/torn-write plans"},
